@@ -175,11 +175,21 @@ def check():
 
     # (a) notification closures set is_stale on every Ok path, after the workspace operation
     want = {"Workspace::open": 0, "Workspace::close": 0, "Workspace::change": 0, "folders": 0}
-    for f in MB.find(r"^main_loop::\{closure#\d+\}$"):
-        if len(f.args) != 3:
-            continue
+    handlers = [(f, ["env", "state", "params"]) for f in MB.find(r"^main_loop::\{closure#\d+\}$") if len(f.args) == 3]
+    # a handler may also be a named function handed to the dispatcher instead of a closure: every two-argument
+    # function over (&mut GlobalState, params) whose name occurs in main_loop's body
+    try:
+        f_ml = MB.one(r"^main_loop$")
+        body = "\n".join("\n".join(b.stmts) + "\n" + (b.term or "") for b in f_ml.blocks.values() if not b.cleanup)
+        for f2 in MB.funcs:
+            if f2.kind == "fn" and "{closure" not in f2.name and len(f2.args) == 2 and "GlobalState" in f2.args[0][1] and f2.args[0][1].strip().startswith("&mut") \
+                    and "Result<()" in f2.ret and re.search(r"(?<![\w:])%s(?![\w])" % re.escape(f2.short), body) and f2.short not in ("refresh",):
+                handlers.append((f2, ["state", "params"]))
+    except Exception as exn:
+        o.inconc("main_loop: cannot enumerate notification handlers (%s)" % str(exn)[:80])
+    for f, names in handlers:
         ex = mirlib.executor([MB])
-        outs = ex.run(f, arg_names=["env", "state", "params"])
+        outs = ex.run(f, arg_names=names)
         mirlib.check_translator(o, ex, f.short)
         for p in outs:
             if p.kind != "return":
